@@ -140,6 +140,7 @@ func extra() {
 	t8()
 	t9()
 	t10()
+	f15()
 }
 
 // F7: per clone function of workflow/utils/clone/clone.go, the fields that are always copied (keys of
